@@ -927,6 +927,13 @@ bool Interpret::declareFun(ASTNode const & n) // (const char* fname, const vec<S
     for (int i = 1; i < args.size(); i++)
         args2.push(args[i]);
 
+    if (args2.size() > 0 and not logic->hasUFs() and not logic->hasArrays()) {
+        // No congruence solver is created for this logic (see MainSolver::createTheory): applications of an uninterpreted
+        // function or predicate would be treated as unrelated variables / Boolean atoms and f(x) != f(y) with x = y answered sat
+        notify_formatted(true, "Uninterpreted function %s is not allowed in logic %s", fname, std::string(logic->getName()).c_str());
+        return false;
+    }
+
     SymRef rval = logic->declareFun(fname, rsort, args2);
 
     if (rval == SymRef_Undef) {
